@@ -378,6 +378,23 @@ def r2(ctx, sc):
             for st in a.local_stores(L):
                 g = c04.gep_parts(sc, fn, st.ops[0])
                 if g and g[1] == 'CHBUF' and isinstance(g[2], tuple) and cell_role(g[2]) == 'NCHARS' and c04.saved_in_buffer(g[2]): stale = st
+        # the destination end of the shift is the end of the allocation, &yy_ch_buf[yy_buf_size + 2]: the block holds
+        # yy_buf_size + 2 bytes (C13.R6) and the shift sets yy_n_chars = yy_buf_size, so the two sentinels that are moved with the
+        # text must land at [yy_buf_size] and [yy_buf_size + 1]
+        dest_bad = None; dests = 0
+        for L in a.locals:
+            for st in a.local_stores(L):
+                g = c04.gep_parts(sc, fn, st.ops[0])
+                if g and g[1] == 'CHBUF' and isinstance(g[2], tuple) and cell_role(g[2]) == 'BUFSIZE':
+                    dests += 1
+                    if g[3] != 2: dest_bad = (st, g[3])
+        if shifts and not bad and stale is None and dest_bad is not None:
+            rep.fail('C08.R2', k0 + 'shift-destination-not-end-of-allocation', where(dest_bad[0]), 'in yyunput the text is shifted up to &yy_ch_buf[yy_buf_size + %d] instead of &yy_ch_buf[yy_buf_size + 2]: '
+                     'yy_n_chars becomes yy_buf_size, so the end-of-buffer sentinels moved with the text no longer sit at yy_ch_buf[yy_n_chars] and [yy_n_chars + 1] - the scanner reads a NUL that is '
+                     'not in the input (or runs past the sentinels) [variant %s]' % (dest_bad[1], v.name), variant=v.describe())
+            continue
+        if shifts and not bad and stale is None and not dests:
+            rep.broken('%s: the destination of the shift in %s (a pointer &yy_ch_buf[yy_buf_size + k]) was not found' % (v.name, fn.name))
         if bad:
             rep.fail('C08.R2', k0 + 'overflow-is-fatal', where(bad[0]), 'in yyunput the below-low-water edge of the test at line %s reaches the push-back store without a second test whose failure is fatal [variant %s]' % (bad[0].line, v.name),
                      witness=witness(cfg, first_ins(bad[1]), s0, avoid=lwb, include_start=True), variant=v.describe())
